@@ -19,6 +19,7 @@ from vlib import core
 
 sys.path.insert(0, os.path.join(core.VERIF, "translate"))
 sys.path.insert(0, os.path.join(core.VERIF, "checks"))
+import query_tables  # noqa: E402
 import exprgrammar  # noqa: E402
 import printer  # noqa: E402
 import c02  # noqa: E402
@@ -27,6 +28,8 @@ GEN_G = os.path.join(core.LEAN_DIR, "UtapModel", "Gen", "ExprGrammar.lean")
 GEN_P = os.path.join(core.LEAN_DIR, "UtapModel", "Gen", "PrinterTable.lean")
 GEN_W = os.path.join(core.LEAN_DIR, "UtapModel", "Gen", "PrinterWitness.lean")
 MODULE = "UtapModel.Props.C03"
+QMODULE = "UtapModel.Props.C03Query"
+GEN_Q = os.path.join(core.LEAN_DIR, "UtapModel", "Gen", "QueryTables.lean")
 WMODULE = "UtapModel.Gen.PrinterWitness"
 
 
@@ -222,6 +225,13 @@ def run(ctx):
     except (exprgrammar.TranslateError, printer.TranslateError) as ex:
         tie_err = str(ex)
         ctx.log("translator failed:", ex)
+    try:
+        qtext, qsum = query_tables.translate(core.REPO)
+        core.write_if_changed(GEN_Q, qtext)
+        cov["translated_query_layer"] = qsum
+    except exprgrammar.TranslateError as ex:
+        tie_err = (tie_err + "; " if tie_err else "") + "query layer: " + str(ex)
+        ctx.log("translator (query layer) failed:", ex)
     okd, logd = core.lake_build(["drv_c02", "drv_c03"])
     if not okd:
         ctx.proof_broken("drv_c03", logd[-3000:], "drivers do not build against the regenerated tables; nothing could be compared")
@@ -258,7 +268,7 @@ def run(ctx):
     wl += ["", "end UtapModel.C03W", ""]
     core.write_if_changed(GEN_W, "\n".join(wl))
     # 3 prove --------------------------------------------------------------------------------------
-    ok, log = ctx.prove(MODULE, [])
+    ok, log = ctx.prove([MODULE, QMODULE], [])
     broken = []
     if not ok:
         broken = core.failing_theorems(log) or [("?", "lake build", log[-400:])]
@@ -373,6 +383,8 @@ def run(ctx):
     # stage Q: queries on the real library (testing only; outside the Lean model) ----------------------------------------
     qstats = run_queries(ctx, b)
     qstats["strings"] = sstats
+    # stage QL: the query layer of the Lean model (Model/Query.lean, theorem C03_query_roundtrip) against the real query parser / printer
+    qstats["query_layer"] = run_query_layer(ctx, b, drv3, texts, model_bugs)
     # verdict ------------------------------------------------------------------------------------------------------------
     if model_bugs:
         ctx.proof_broken("correspondence:printer-model", repr(model_bugs[:3]), "library round trip is fine on those inputs")
@@ -392,8 +404,12 @@ def run(ctx):
     cov["samples"] = [{"text": c["text"], "str": c["s1"], "equal": c["eq"], "typeok": c["typeok"]} for c in cases[:: max(1, len(cases) // 5)][:6]]
     ctx.assumptions += [
         "the theorem is at token level; that lexing the text of str() gives the model's token stream is checked on every case (not proved)",
-        "queries (A[], E<>, Pr[..], E[..], simulate, control*, minE/maxE, strategies) are outside the Lean model: the same parse/str/parse/equal/str "
-        "oracle runs on the real library for a fixed list of query forms (testing)",
+        "query layer of the Lean model (C03_query_roundtrip): A<> A[] E<> E[] --> A[U] A[W], control / E<> control / control_t* / {..} control, "
+        "sup / inf / bounds; its printer is driven by layouts regenerated from expression_t::print, its parser's productions are proved to be "
+        "productions of parser.y (C03_query_tables); bison's LALR automaton on these productions is represented by a hand-written parser, "
+        "validated by comparing trees with the real parser on every generated query",
+        "the Buchi form, the statistical queries (Pr[..], E[..], simulate), minE/maxE, strategies and `under` are outside the Lean model: the same "
+        "parse/str/parse/equal/str oracle runs on the real library for a fixed list of query forms (testing)",
         "witnesses whose expression the type checker rejects (e.g. `(a + b)'`) are computed and proved but are not violations of the property, "
         "which speaks about accepted expressions",
     ]
@@ -457,6 +473,103 @@ def run_queries(ctx, b):
         else:
             ctx.finding("query:" + kind, "query %r: str() gives %r; re-parse: %s%s" % (q, s1, status, (" second str " + repr(s2)) if s2 and s2 != s1 else ""),
                         {"entry": "parseProperty(query) -> str() -> parseProperty -> equal -> str()", "query": q, "str": s1, "status": status, "second_str": s2})
+    return st
+
+
+QL_FORMS = ["A<> {0}", "A[] {0}", "E<> {0}", "E[] {0}", "{0} --> {1}", "A[{0} U {1}]", "A[{0} W {1}]"]
+QL_WRAP = ["{S}", "control: {S}", "E<> control: {S}", "control_t*({2}, {3}): {S}", "control_t*({2}): {S}", "control_t*: {S}",
+           "{{{L}}} control: {S}", "{{ }} control: {S}"]
+QL_OPT = ["sup: {L}", "inf: {L}", "bounds: {L}", "sup{{{0}}}: {L}", "inf{{{0}}}: {L}", "bounds{{{0}}}: {L}"]
+QL_KINDS = {"AF", "AG", "EF", "EG", "LEADS_TO", "A_UNTIL", "A_WEAK_UNTIL", "CONTROL", "EF_CONTROL", "CONTROL_TOPT", "CONTROL_TOPT_DEF1",
+            "CONTROL_TOPT_DEF2", "PO_CONTROL", "SUP_VAR", "INF_VAR", "BOUNDS_VAR"}
+
+
+def run_query_layer(ctx, b, drv, texts, model_bugs):
+    """every form of the query layer x random operand expressions (the minimal renderings of this run's trees): the real parser's kind tree
+    and str() against the model's parse and print (driver op QRY); and the property itself on the library (equal tree, identical text)"""
+    r = ctx.rng
+    har = core.build_harness(b, "c03q", ["c03q.cpp"])
+    ok_ids = set("a b c d e i j k arr p q x y cl true false".split())
+    pool = [t for t in texts if len(t) < 120 and all(w in ok_ids or not w[0].isalpha() or "(" in w for w in re.findall(r"[A-Za-z_]\w*\(?", t))]
+    pool = pool or ["a", "p", "a + 1", "x > 0.5"]
+    small = [t for t in pool if len(t) < 30] or pool
+    queries = []
+    n = 40 if not ctx.thorough else 600
+    for form in QL_FORMS:
+        for wrap in QL_WRAP:
+            for _ in range(n // 4):
+                ops = [r.choice(pool if r.random() < 0.6 else small) for _ in range(4)]
+                lst = ", ".join(r.choice(small) for _ in range(r.randint(1, 4)))
+                queries.append(wrap.replace("{S}", form).replace("{L}", lst).format(*ops) if "{L}" not in wrap
+                               else wrap.replace("{S}", form).replace("{L}", lst).format(*ops))
+    for form in QL_OPT:
+        for _ in range(n):
+            ops = [r.choice(pool)]
+            lst = ", ".join(r.choice(pool if r.random() < 0.5 else small) for _ in range(r.randint(1, 5)))
+            queries.append(form.replace("{L}", lst).format(*ops))
+    queries = sorted(set(queries), key=lambda qq: (len(qq), qq))
+    rc, out, err = c02.run_lines(har, queries)
+    st = dict(queries=len(queries), accepted_by_library=0, compared=0, tree_disagreements=0, print_disagreements=0, wf=0, not_wf=0,
+              roundtrip_ok=0, by_kind={})
+    if rc != 0 or len(out) != len(queries):
+        bad = queries[len(out)] if len(out) < len(queries) else "?"
+        ctx.finding("crash:query-str", "the library died while printing / re-parsing the query %r" % bad, {"query": bad, "stderr": err[-3000:]})
+        return st
+    rows = []
+    for qq, line in zip(queries, out):
+        f = line.split("\t")
+        if f[0] == "OK" and len(f) >= 6:
+            rows.append((qq, f))
+    st["accepted_by_library"] = len(rows)
+    _, mo, _ = c02.run_lines(drv, ["QRY\t%s\t%s" % (qq, f[2]) for qq, f in rows])
+    if len(mo) != len(rows):
+        model_bugs.append(("driver died on the query layer", rows[len(mo)][0] if len(mo) < len(rows) else "?", ""))
+        return st
+    rejected_by_model = 0
+    for (qq, f), m in zip(rows, mo):
+        kind, s1, status, s2, kt = f[1], f[2], f[3], f[4], f[5]
+        st["by_kind"][kind] = st["by_kind"].get(kind, 0) + 1
+        impl_ok = status == "equal" and s1 == s2
+        st["roundtrip_ok"] += impl_ok
+        g = m.split("\t")
+        replay = {"entry": "parseProperty(query) -> str() -> parseProperty -> equal -> str()  (harness/c03q.cpp)", "query": qq, "tree": kt, "str": s1,
+                  "status": status, "second_str": s2, "model": m}
+        if kind not in QL_KINDS:
+            continue
+        if len(g) != 5:
+            rejected_by_model += 1
+            model_bugs.append(("query accepted by the library, rejected by the model's parser", qq, m))
+            continue
+        st["compared"] += 1
+        mk, wf, mtext, lexeq, re_ok = c02.canon_model(g[0]), g[1] == "true", g[2], g[3] == "true", g[4] == "true"
+        st["wf" if wf else "not_wf"] += 1
+        if mk != kt:
+            st["tree_disagreements"] += 1
+            model_bugs.append(("query tree differs", qq, "model=%s real=%s" % (mk[:300], kt[:300])))
+            continue
+        # deviations of the expression level that are known findings there carry over to operands of queries
+        known = None
+        if re.search(r"[0-9]\.[0-9]|[0-9]e[-+]?[0-9]", qq):
+            known = "literal:double-printed-with-6-digits"      # (the token-level model keeps a double literal's text)
+        elif re.search(r"\b(forall|exists|sum)\(\w+:\(", s1):
+            known = "binder:quantifier-type-printed-with-type_t::str"
+        elif "--2147483648" in s1.replace(" ", ""):
+            known = "text:minus-minus-2147483648"
+        if not lexeq:
+            st["print_disagreements"] += 1
+            if impl_ok and wf and not known:
+                model_bugs.append(("query printer model differs from str() although the library round trip is fine", qq, "model=%r real=%r" % (mtext, s1)))
+            elif not impl_ok:
+                ctx.finding(known or ("query:" + kind), "query %r: str() gives %r; re-parse: %s (the model prints %r)" % (qq, s1, status, mtext), replay)
+            continue
+        if wf and not re_ok:
+            model_bugs.append(("C03_query_roundtrip contradicted by the executable model", qq, m))
+        if wf and not impl_ok:
+            ctx.finding(known or ("query:" + kind), "theorem C03_query_roundtrip covers %r but the library does not round-trip it: str() %r, re-parse %s"
+                        % (qq, s1, status), replay)
+        elif not wf and not impl_ok:
+            ctx.finding(known or ("query-operand:" + kind), "query %r: str() gives %r; re-parse: %s (operand outside the criterion `good`)" % (qq, s1, status), replay)
+    st["rejected_by_model"] = rejected_by_model
     return st
 
 
